@@ -695,7 +695,7 @@ PROPS['C20'] = dict(
          'BETWEEN API calls. Oracles: ThreadSanitizer reports (collected through __tsan_on_report, classified by whether a library frame is on the stack), model agreement inside each thread, and equality of each thread\'s result digest '
          'with the same workload run alone beforehand; a second, uninstrumented -O2 build repeats the rounds for higher contention. Interleavings are measured from per-thread rdtsc stamps merged after join. distinct = distinct interleaving of the recorded points',
     jobs=c20_jobs,
-    min_evaluations=dict(quick=1500, thorough=100000),
+    min_evaluations=dict(quick=1500, thorough=60000),
     technique='race detection with ThreadSanitizer (g++ -fsanitize=thread) on concurrent per-thread histories plus sequential-equivalence comparison of recorded per-thread results; no shared monitor state inside the threads',
     level_text='Exploration: TSan finds races in executed code largely independently of the schedule actually taken; the equivalence check covers the interleavings that occurred.',
     level_note='Not all interleavings can be enumerated; the library has no internal suspension points, so delays are injected between API calls only.',
